@@ -83,7 +83,7 @@ Steps == [k : {"add_field"}, t : {"integer", "string"}]
          \cup [k : {"acf"}, op : {"sum", "avg", "min", "multiply", "format", "join", "constant"}, src : {<<"a">>, <<"a", "c">>, <<"b">>}]
          \cup [k : {"delete_b", "select_a", "rename_a", "rename_swap", "set_type_a_number", "set_type_a_string", "filter", "sort", "dedup",
                     "duplicate", "delete_first", "concatenate", "concat_head", "concat_tail", "source", "unpivot_b", "find_replace_b", "validate",
-                    "set_pk_a", "set_pk_ab", "concat_ren", "to_int_clear", "join_rownum_full"}]
+                    "set_pk_a", "set_pk_ab", "concat_ren", "to_int_clear", "join_rownum_full", "sql_flag"}]
          \cup [k : {"acf_chain"}, first : {<<"a">>, <<"a", "c">>}, op2 : {"sum", "min", "format"}]       \* one call, two fields: cf = sum(first), then cf2 = op2(cf, a)
          \cup [k : {"join"}, agg : {"sum", "avg", "median", "count", "first", "array", "max"}, f : {"a", "b", "n"}]
 
@@ -143,6 +143,7 @@ Enabled(s, pkg) ==
                        /\ Has(pkg[1], s.f) /\ ~Has(pkg[2], "j")
                        /\ s.agg \in {"sum", "avg", "median", "max"} => Numeric(Get(pkg[1], s.f)) /\ Get(pkg[1], s.f).tags \subseteq {"int", "num"}
     [] s.k = "join_rownum_full" -> /\ Len(pkg) = 2 /\ pkg[1].name = "res_1" /\ pkg[2].name = "res_2" /\ Has(pkg[1], "b") /\ ~Has(pkg[2], "j")
+    [] s.k = "sql_flag" -> pkg[1].name = "res_1" /\ ~Has(pkg[1], "_u") /\ pkg[1].pk = <<>>      \* (a declared key becomes a UNIQUE constraint of the table; the inputs repeat values of a)
     [] s.k = "validate" -> TRUE
 
 Apply(s, pkg) ==
@@ -167,6 +168,8 @@ Apply(s, pkg) ==
     [] s.k \in {"filter", "sort", "validate"} -> pkg
     [] s.k \in {"dedup", "set_pk_a"} -> MapRes(pkg, LAMBDA r : TRUE, LAMBDA r : [r EXCEPT !.pk = <<"a">>])      \* dedup = set_primary_key(['a']) + deduplicate()
     [] s.k = "set_pk_ab" -> [pkg EXCEPT ![1].pk = <<"a", "b">>]
+    \* dump_to_sql({t: {resource-name: res_1}}, updated_column='_u'): the rows of that resource continue with a flag - a field like any other
+    [] s.k = "sql_flag" -> [pkg EXCEPT ![1] = AddField(@, F("_u", "boolean", {"bool"}))]
     \* set_type('[bz]', type='integer', on_error=clear) on the first resource: text that is no integer becomes null - in EVERY matched
     \* field of a row, not only in the first one that fails
     [] s.k = "to_int_clear" -> [pkg EXCEPT ![1].fields = [i \in DOMAIN @ |-> IF @[i].name \in {"b", "z"}
